@@ -379,18 +379,35 @@ def gen_convert(grpc):
     if len(loops) != 1:
         raise Untranslatable('convert_response: one loop expected')
     lb = [s for s in loops[0].body if not (isinstance(s, ast.Expr) and isinstance(s.value, ast.Constant))]
-    if not (isinstance(lb[0], ast.Assign) and ast.unparse(lb[0].targets[0]) == 'trigger'
-            and isinstance(lb[0].value, ast.Call) and ast.unparse(lb[0].value.func) == 'build_trigger'):
+
+    def is_build(x):
+        return (isinstance(x, ast.Assign) and ast.unparse(x.targets[0]) == 'trigger'
+                and isinstance(x.value, ast.Call) and ast.unparse(x.value.func) == 'build_trigger')
+    skip_conv = False
+    first = lb[0]
+    if isinstance(first, ast.Try):
+        # try: trigger = build_trigger(...)  except Exception: log; continue
+        if first.finalbody or first.orelse or len(first.body) != 1 or not is_build(first.body[0]) \
+                or len(first.handlers) != 1 or has_raise(first.handlers[0].body):
+            raise Untranslatable('convert_response: try around build_trigger has an unexpected shape')
+        h = first.handlers[0]
+        if not (h.body and isinstance(h.body[-1], ast.Continue)):
+            raise Untranslatable('convert_response: the handler around build_trigger does not `continue`')
+        skip_conv = catch_classes(h)[0]
+    elif not is_build(first):
         raise Untranslatable('convert_response: loop does not start with trigger = build_trigger(...)')
     skip = (len(lb) > 1 and isinstance(lb[1], ast.If) and ast.unparse(lb[1].test) == 'trigger is None'
             and len(lb[1].body) == 1 and isinstance(lb[1].body[0], ast.Continue) and not lb[1].orelse)
-    # the loop is not inside a try: a raising conversion (metric type) aborts the whole response
-    guarded = any(isinstance(s, ast.Try) for s in ast.walk(f))
-    if guarded:
-        raise Untranslatable('convert_response now contains a try: statement (model assumes none)')
+    # no other try: anything else that raises aborts the whole response
+    tries = [x for x in ast.walk(f) if isinstance(x, ast.Try)]
+    if len(tries) > (1 if isinstance(first, ast.Try) else 0):
+        raise Untranslatable('convert_response contains a try: statement the model does not know')
     return ('/-- `convert_response`: a tracepoint `build_trigger` returns None for is skipped (otherwise the\n'
             '    following `trigger.id` raises AttributeError and the whole response is lost) -/\n'
-            f'def skipsUninterpretable : Bool := {lean_bool(skip)}\n')
+            f'def skipsUninterpretable : Bool := {lean_bool(skip)}\n\n'
+            '/-- `convert_response`: a tracepoint whose conversion raises an `Exception` (metric of unknown type) is\n'
+            '    skipped too (`try … except Exception: continue` around its build); otherwise the whole response is lost -/\n'
+            f'def skipsUnconvertible : Bool := {lean_bool(skip_conv)}\n')
 
 
 def gen_timer(utils, poll):
